@@ -38,6 +38,7 @@ type c08Seed struct {
 	extOffs []int // offsets of extension headers
 	hot     []int // extra byte offsets worth the full value sweep (beyond the first 160)
 	stun    bool
+	l4      uint8 // upper-layer protocol behind the extension headers
 }
 
 // ---- clean-room parser for anything the router lets out ----
@@ -164,7 +165,7 @@ func c08Seeds(cfg *rtr.Cfg, key []byte, now uint32) []c08Seed {
 	var seeds []c08Seed
 	add := func(name string, p *rtr.Pkt, in rtr.Ingress, f func(s *c08Seed)) {
 		raw, lay := p.Serialize()
-		s := c08Seed{name: name, raw: raw, lay: lay, in: in}
+		s := c08Seed{name: name, raw: raw, lay: lay, in: in, l4: p.L4}
 		o := lay.HdrLen
 		if p.HasHBH {
 			s.extOffs = append(s.extOffs, o)
@@ -599,6 +600,70 @@ func (w *c08Worker) one(s *c08Seed, mut c08M, raw []byte, in rtr.Ingress) {
 	}
 }
 
+// c08OptionLayouts enumerates every way to fill an option area of n bytes with TLV options over the type alphabet
+// {Pad1, PadN(1), authenticator(2), unknown(0x7f)}: every tiling by complete options (every data length that fits),
+// and every way the area can END inside an option - at a lone type byte, at a type+length pair whose data is
+// missing, or with a length that overruns the area by 1, by the whole area, or maximally (0xff).
+func c08OptionLayouts(n int) [][]byte {
+	memo := map[int][][]byte{}
+	var gen func(n int) [][]byte
+	gen = func(n int) [][]byte {
+		if n == 0 {
+			return [][]byte{{}}
+		}
+		if r, ok := memo[n]; ok {
+			return r
+		}
+		var out [][]byte
+		for _, rest := range gen(n - 1) {
+			out = append(out, append([]byte{0}, rest...))
+		}
+		for _, t := range []byte{1, 2, 0x7f} {
+			if n == 1 {
+				out = append(out, []byte{t}) // the area ends at an option's type byte
+				continue
+			}
+			for l := 0; l <= n-2; l++ {
+				data := make([]byte, l)
+				for i := range data {
+					data[i] = byte(0xa0 + i)
+				}
+				for _, rest := range gen(n - 2 - l) {
+					o := append([]byte{t, byte(l)}, data...)
+					out = append(out, append(o, rest...))
+				}
+			}
+			for _, l := range []int{n - 1, n, 0xff} { // data length beyond the area
+				o := append([]byte{t, byte(l)}, make([]byte, n-2)...)
+				out = append(out, o)
+			}
+		}
+		memo[n] = out
+		return out
+	}
+	return gen(n)
+}
+
+// c08WithExts rebuilds the seed's packet with the given extension headers (option areas; nil = absent) between the
+// SCION header and the upper layer, NextHdr chain and PayloadLen kept consistent.
+func c08WithExts(s *c08Seed, hbh, e2e []byte) []byte {
+	b := append([]byte{}, s.raw[:s.lay.HdrLen]...)
+	l4 := s.raw[s.lay.L4Off:]
+	next := s.l4
+	var exts []byte
+	if e2e != nil {
+		exts = append([]byte{next, byte((2+len(e2e))/4 - 1)}, e2e...)
+		next = rtr.L4E2E
+	}
+	if hbh != nil {
+		exts = append(append([]byte{next, byte((2+len(hbh))/4 - 1)}, hbh...), exts...)
+		next = rtr.L4HBH
+	}
+	b[4] = next
+	binary.BigEndian.PutUint16(b[6:], uint16(len(exts)+len(l4)))
+	return append(append(b, exts...), l4...)
+}
+
 // alt returns the other ingress kinds for a seed.
 func c08Alt(in rtr.Ingress) []rtr.Ingress {
 	all := []rtr.Ingress{rtr.FromHost, rtr.FromExt(1), rtr.FromSibling(13)}
@@ -699,6 +764,7 @@ func TestC08(t *testing.T) {
 		"packets, one-hop, BFD, empty path, STUN binding requests) x mutation alphabet: every byte of the first 160 (and the L4/quote region) " +
 		"x {0,1,0x7f,0x80,0xff, 8 bit flips}; truncation to every length; HdrLen all 256 (+- matching PayloadLen); PayloadLen " +
 		"{0,1,len-1,len+1,0xffff}; DT/DL/ST/SL all 256; extension NextHdr/ExtLen/option type/length all 256; PathType x NextHdr all 65536; " +
+		"extension option layouts: every TLV tiling of a 2- and a 6-byte option area over 4 option types incl. every way to end inside an option (type byte, length byte, overrunning length), as HBH, as E2E and in HBH+E2E on every slow-path seed (traceroute+router alert, expired) and a quarter of the others, auth off and on, 2-byte area also with all 65536 values; " +
 		"path meta word (structured subset of 4x64x7^3x2 words on 4 seeds and all ingress kinds; thorough adds all 2^26 words on each of the 4 seeds); pairs of structural single-byte mutations (bound 2); STUN: every byte x " +
 		"same values, every truncation, first attribute type/length all 65536 values, extra attributes. Structural families on all three ingress kinds " +
 		"(external, sibling, internal), byte sweep on the seed's own ingress; SCMP authentication off/on. Every input is distinct by construction"
@@ -784,6 +850,45 @@ func TestC08(t *testing.T) {
 						}
 					}
 				})
+				done(w)
+			}
+		})
+		// ---- phase 1b: extension-header option layouts (both extension kinds, every placement, both auth settings) ----
+		lay2, lay6 := c08OptionLayouts(2), c08OptionLayouts(6)
+		r.Extra["option_layouts"] = map[string]int{"area2": len(lay2), "area6": len(lay6)}
+		okPad := []byte{1, 4, 0, 0, 0, 0}
+		mc.ParallelFor(len(seeds), func(si int) {
+			s := &seeds[si]
+			cls := c08Class(s.name)
+			slow := cls == "traceroute-alert" || cls == "expired" // seeds that enter the slow path
+			if s.stun || s.lay.HdrLen == 0 || stop() || (!slow && !mc.Thorough() && si%4 != 0) {
+				return
+			}
+			for _, auth := range []bool{false, true} {
+				w := newWorker(auth)
+				try := func(kind string, i int, area []byte) {
+					w.one(s, c08Mut("hbh-options("+kind+" #%d)", i), c08WithExts(s, area, nil), s.in)
+					w.one(s, c08Mut("e2e-options("+kind+" #%d)", i), c08WithExts(s, nil, area), s.in)
+					w.one(s, c08Mut("hbh-options("+kind+" #%d)+e2e", i), c08WithExts(s, area, okPad), s.in)
+					w.one(s, c08Mut("hbh+e2e-options("+kind+" #%d)", i), c08WithExts(s, okPad, area), s.in)
+				}
+				for i, a := range lay2 {
+					try("area2", i, a)
+				}
+				for i, a := range lay6 {
+					try("area6", i, a)
+				}
+				if slow && (mc.Thorough() || si%16 == 0) { // the 2-byte option area exhaustively
+					for v := 0; v < 65536; v++ {
+						a := []byte{byte(v >> 8), byte(v)}
+						if mc.Thorough() {
+							try("area2=all", v, a)
+							continue
+						}
+						w.one(s, c08Mut("hbh-options(area2=all #%d)", v), c08WithExts(s, a, nil), s.in)
+						w.one(s, c08Mut("e2e-options(area2=all #%d)", v), c08WithExts(s, nil, a), s.in)
+					}
+				}
 				done(w)
 			}
 		})
